@@ -300,15 +300,19 @@ func VerifHarness_C13_tags() {
 	vfBuildAndCheck(def, vfChoice("opts", vfOptN))
 }
 
+// params: the parameter string alone (non-evaluating option sets; parameter parsing under
+// evaluation is outside the claim, DESIGN.md section 7)
+func VerifHarness_C13_params() {
+	def := vfBaseDef()
+	def.Params = vfS("params")
+	vfBuildAndCheck(def, vfChoice("opts", 2))
+}
+
 func VerifHarness_C13_strings() {
 	// string-valued top-level fields (C19: command substitutions planted anywhere)
 	def := vfBaseDef()
 	optk := vfChoice("opts", vfOptN)
-	if optk != 2 {
-		// parameter parsing under evaluation is outside the claim (regexp submatch semantics,
-		// DESIGN.md section 7); non-evaluating loads parse the symbolic parameter string for real
-		def.Params = vfS("params")
-	}
+	// (the parameter string has its own group: VerifHarness_C13_params)
 	def.LogDir = vfS("logDir")
 	def.SMTP.Host = vfS("smtp.host")
 	def.ErrorMail.From = vfS("mail.from")
@@ -526,6 +530,7 @@ func VerifHarness_C19_schedule() { vfOptN = 2; VerifHarness_C13_schedule() }
 func VerifHarness_C19_env()      { vfOptN = 2; VerifHarness_C13_env() }
 func VerifHarness_C19_tags()     { vfOptN = 2; VerifHarness_C13_tags() }
 func VerifHarness_C19_strings()  { vfOptN = 2; VerifHarness_C13_strings() }
+func VerifHarness_C19_params()   { vfOptN = 2; VerifHarness_C13_params() }
 func VerifHarness_C19_step()     { vfOptN = 2; VerifHarness_C13_step() }
 func VerifHarness_C19_executor() { vfOptN = 2; VerifHarness_C13_executor() }
 func VerifHarness_C19_call()     { vfOptN = 2; VerifHarness_C13_call() }
